@@ -275,6 +275,114 @@ let cmd_mroot ~(spec : bool) (arg : string) : string =
         (root_from_paths sha512 ver (n_of_string idx) leaf path)
   | _ -> failwith "mroot args"
 
+(* ---------- request / keys / server ---------- *)
+let version_name = function Google -> "Google" | RfcDraft13 -> "RfcDraft13"
+
+let cmd_classify (arg : string) : string =
+  match String.split_on_char ' ' (String.trim arg) with
+  | srv :: rest ->
+    let d = bytes_of_hex (match rest with [] -> "-" | x :: _ -> x) in
+    render_out (fun (n, v) -> hex_of_bytes n ^ " " ^ version_name v) (classify (bytes_of_hex srv) d)
+  | [] -> failwith "classify args"
+
+(* Ed25519 stand-ins for RUNNING the model: the comparison masks every signature / public key
+   field, only lengths matter (32 / 64 bytes) *)
+let dummy_pk (seed : bytes) : bytes = firstn (nat_of_int 32) (sha512 (bytes_of_string "pk" @ seed))
+let dummy_sign (seed : bytes) (m : bytes) : bytes = sha512 (seed @ m)
+
+let cmd_srep (arg : string) : string =
+  match String.split_on_char ' ' (String.trim arg) with
+  | [v; secs; nanos; root] ->
+    let ver = version_of v in
+    (match make_srep dummy_sign ver (bytes_of_string "online") (n_of_string secs, n_of_string nanos) (bytes_of_hex root) with
+     | Ok m ->
+       let srep = match get_field m SREP with Some x -> x | None -> [] in
+       Printf.sprintf "OK SREP=%s NF=%d SIGOK=1" (hex_of_bytes srep) (List.length m)
+     | Err e -> "ERR " ^ render_err e
+     | Panic _ -> "PANIC")
+  | _ -> failwith "srep args"
+
+let cmd_wfspec (arg : string) : string =
+  match String.split_on_char ' ' (String.trim arg) with
+  | srv :: rest ->
+    let d = bytes_of_hex (match rest with [] -> "-" | x :: _ -> x) in
+    (match wellformed (bytes_of_hex srv) d with
+     | Some (n, v) -> "OK " ^ hex_of_bytes n ^ " " ^ version_name v
+     | None -> "REJECT")
+  | [] -> failwith "wfspec args"
+
+(* spec verifier, first pass: signature queries are recorded and assumed to hold; the
+   orchestrator then has each query answered by the Ed25519 oracle. Exact because the verdict
+   is a conjunction in which the signature checks occur positively. *)
+let cmd_vresp (arg : string) : string =
+  match String.split_on_char ' ' (String.trim arg) with
+  | [v; pk; req; reply] ->
+    let queries = ref [] in
+    let edv pk m sg = queries := (pk, m, sg) :: !queries; true in
+    let ok = verify_response sha512_memo edv (version_of v) (bytes_of_hex pk) (bytes_of_hex req) (bytes_of_hex reply) in
+    Printf.sprintf "V=%d Q=%s" (if ok then 1 else 0)
+      (String.concat ";" (List.rev_map (fun (a, b, c) ->
+           hex_of_bytes a ^ "," ^ hex_of_bytes b ^ "," ^ hex_of_bytes c) !queries))
+  | _ -> failwith "vresp args"
+
+let model_srv : server option ref = ref None
+
+let stats_totals (evs : sev list) : string =
+  let rfc = ref 0 and classic = ref 0 and invalid = ref 0 and health = ref 0 and failed = ref 0
+  and retried = ref 0 and rfcresp = ref 0 and classicresp = ref 0 and bytes = ref 0 in
+  List.iter (function
+      | SIetfRequest _ -> incr rfc | SClassicRequest _ -> incr classic | SInvalidRequest _ -> incr invalid
+      | SRfcResponse (_, n) -> incr rfcresp; bytes := !bytes + int_of_n n
+      | SClassicResponse (_, n) -> incr classicresp; bytes := !bytes + int_of_n n
+      | SFailedSend _ -> incr failed | SRetriedSend _ -> incr retried | SHealthCheck _ -> incr health) evs;
+  Printf.sprintf "rfc=%d classic=%d invalid=%d health=%d failed=%d retried=%d rfcresp=%d classicresp=%d bytes=%d"
+    !rfc !classic !invalid !health !failed !retried !rfcresp !classicresp !bytes
+
+let cmd_serve (arg : string) : string =
+  let arg = String.trim arg in
+  let sub, rest =
+    match String.index_opt arg ' ' with
+    | Some i -> (String.sub arg 0 i, String.sub arg (i + 1) (String.length arg - i - 1))
+    | None -> (arg, "") in
+  match sub with
+  | "new" ->
+    (match String.split_on_char ' ' rest with
+     | batch :: fault :: level :: _cs :: seed :: more ->
+       (* the long-term public key is Ed25519(seed): supplied by the oracle (6th/7th argument) *)
+       let real_pk = match more with _ :: pk :: _ -> Some (bytes_of_hex pk) | _ -> None in
+       let lt = bytes_of_hex seed in
+       let dummy_pk s = match real_pk with Some pk when s = lt -> pk | _ -> dummy_pk s in
+       let cfg = { batch_size = nat_of_int (int_of_string batch); fault_pct = n_of_string fault;
+                   log_level = nat_of_int (int_of_string level) } in
+       (match server_new sha512 dummy_pk dummy_sign cfg (bytes_of_hex seed)
+                (bytes_of_string "online-ietf") (bytes_of_string "online-classic") with
+        | Ok s -> model_srv := Some s;
+          Printf.sprintf "OK srv=%s" (hex_of_bytes s.s_srv_value)
+        | _ -> "PANIC")
+     | _ -> failwith "serve new args")
+  | "run" ->
+    (match !model_srv with
+     | None -> "NO-SERVER"
+     | Some s ->
+       let dg =
+         match String.index_opt rest ' ' with
+         | Some i -> String.sub rest (i + 1) (String.length rest - i - 1)
+         | None -> "" in
+       let queue = List.map (fun x ->
+           let i = String.index x ':' in
+           (n_of_int (int_of_string (String.sub x 0 i)),
+            bytes_of_hex (String.sub x (i + 1) (String.length x - i - 1)))) (split_on ';' dg) in
+       (match process_events sha512 dummy_sign s queue (fun _ -> (N0, N0)) [] with
+        | Ok (s', o) ->
+          model_srv := Some s';
+          Printf.sprintf "OK %s LOG=%d R=%s" (stats_totals o.so_stats) (List.length o.so_logs)
+            (String.concat ";" (List.map (fun e ->
+                 Printf.sprintf "%d:%s" (int_of_n e.em_dest) (hex_of_bytes e.em_bytes)) o.so_sent))
+        | Err e -> "ERR " ^ render_err e
+        | Panic n -> Printf.sprintf "PANIC site=%d" (int_of_nat n)))
+  | "drop" -> model_srv := None; "OK"
+  | _ -> "SKIP"
+
 let dispatch (line : string) : string =
   let cmd, rest =
     match String.index_opt line ' ' with
@@ -288,6 +396,11 @@ let dispatch (line : string) : string =
   | "buildspec" -> cmd_build_spec rest
   | "padlen" -> cmd_padlen rest
   | "merkle" -> cmd_merkle rest
+  | "classify" -> cmd_classify rest
+  | "srep" -> cmd_srep rest
+  | "serve" -> cmd_serve rest
+  | "wfspec" -> cmd_wfspec rest
+  | "vresp" -> cmd_vresp rest
   | "merklespec" -> cmd_merkle_spec rest
   | "mroot" -> cmd_mroot ~spec:false rest
   | "mrootspec" -> cmd_mroot ~spec:true rest
